@@ -100,6 +100,19 @@ theorem sphere_hit_in_box (cs ce ct : P3) (r : ℝ) (ray : TemporalRay ℝ) (mn 
   · rcases le_max_iff.mp by2 with q | q <;> linarith
   · rcases le_max_iff.mp bz2 with q | q <;> linarith
 
+/-- a linear animation `t ↦ a + (b − a)·t` (any affine motion) satisfies `Between` for every ray time inside the
+    interval the box was built for — so `sphere_hit_in_box` covers `NewAnimatedSphere` with linear motion -/
+theorem between_linear (a b : P3) (s e t : ℝ) (h1 : s ≤ t) (h2 : t ≤ e) :
+    Between (a.Add ((b.Sub a).Scale s)) (a.Add ((b.Sub a).Scale e)) (a.Add ((b.Sub a).Scale t)) := by
+  have key : ∀ (x y : ℝ), min (x + (y - x) * s) (x + (y - x) * e) ≤ x + (y - x) * t ∧
+      x + (y - x) * t ≤ max (x + (y - x) * s) (x + (y - x) * e) := by
+    intro x y
+    rcases le_total 0 (y - x) with h | h
+    · exact ⟨le_trans (min_le_left _ _) (by nlinarith), le_trans (by nlinarith) (le_max_right _ _)⟩
+    · exact ⟨le_trans (min_le_right _ _) (by nlinarith), le_trans (by nlinarith) (le_max_left _ _)⟩
+  simp only [Between, V3.Add, V3.Sub, V3.Scale]
+  exact ⟨key a.x b.x, key a.y b.y, key a.z b.z⟩
+
 noncomputable def rT (depth : ℝ) (ray : TemporalRay ℝ) : ℝ := (depth - ray.origin.z) / ray.direction.z
 noncomputable def rX (depth : ℝ) (ray : TemporalRay ℝ) : ℝ := ray.origin.x + rT depth ray * ray.direction.x
 noncomputable def rY (depth : ℝ) (ray : TemporalRay ℝ) : ℝ := ray.origin.y + rT depth ray * ray.direction.y
